@@ -95,12 +95,15 @@ CLAIMED = {
             "AsyncFIXDummyServer fed through its own reader task. Deductive core, proved for every order state "
             "satisfying the invariant of C17, every ExecType / OrdStatus and all real-valued arguments in five argument "
             "shapes: fix_exec_report_msg yields CumQty + LeavesQty <= OrderQty, LeavesQty 0 for finished statuses, "
-            "ExecID = counter + 1, the order's (or the remembered) OrderID, and process_execution_report accepts it. One "
+            "ExecID = counter + 1, the order's (or the remembered) OrderID, and process_execution_report accepts it; "
+            "fix_cxlrep_reject_msg answers the request (ids copied, response-to by request type, status) for every status "
+            "and is accepted by process_cancel_rej_report in every order state; msg_sequence_reset / msg_resend_request / "
+            "msg_test_request / msg_heartbeat carry the type and fields asked for. One "
             "genuine defect repaired (fix: d58658c two reports in a row carried different OrderIDs).",
             "DESIGN.md 4/C20 and 9",
             "level exploration: dictionary validity and fidelity need the XML dictionary and two whole-session runs - "
             "outside per-function contracts; bounds: 25 sampled pairs (thorough all 255) x 11 states x 15 variants, "
-            "scripts of up to 2 (4) actions out of 5; masked in the frame comparison: SendingTime, lengths, CheckSum, "
+            "scripts of up to 2 (5) actions out of 5; masked in the frame comparison: SendingTime, lengths, CheckSum, "
             "clock-valued TestReqID; deductive core under the assumptions of C17 (reals, A-REPR)",
             "bounded exploration of the real helper as stand-in; contract-based deductive verification of "
             "fix_exec_report_msg (z3)"),
@@ -117,8 +120,8 @@ CLAIMED = {
             "not validated; pinned by the suite).",
             "DESIGN.md 4/C15 and 9",
             "level exploration: validate / validate_group / _parse iterate over dicts of value-hashed schema objects built "
-            "from XML - outside the subset the verifier executes; bounds: 2 (thorough 12) instances per message type, up to "
-            "3 (12) positions per fault class, 1 (4) component permutations; oracle: independent XML reading; the value "
+            "from XML - outside the subset the verifier executes; bounds: 2 (thorough 60) instances per message type, up to "
+            "3 (30) positions per fault class, 1 (6) component permutations; oracle: independent XML reading; the value "
             "checks are proved under the assumptions of C19",
             "bounded exploration of the real schema validator over both real dictionaries as stand-in; contract-based "
             "deductive verification of validate_value (C19)"),
@@ -137,8 +140,8 @@ CLAIMED = {
             "that leniency).",
             "DESIGN.md 4/C10 and 9",
             "level exploration: nothing is claimed as proved about decode as a whole; bounds: 1500 random buffers "
-            "(thorough 20000), all positions (quick: every 2nd) of 6 corpus frames x 8+1+5 mutations, 110 trailing "
-            "frames, every 9th (3rd) case through the reader task; oracle: independent frame parser; trusted: pyvc, "
+            "(thorough 300000), all positions (quick: every 2nd) of 6 corpus frames x 8+1+5 mutations, 110 trailing "
+            "frames, every 9th (thorough: every) case through the reader task; oracle: independent frame parser; trusted: pyvc, "
             "z3, cvc5 for the two helper contracts",
             "bounded exploration of the real decoder (fuzz + exhaustive single-byte corruptions) as stand-in; "
             "contract-based deductive verification of the helper functions _is_number / _skip_len (z3 + cvc5)"),
@@ -156,7 +159,7 @@ CLAIMED = {
             "bounded exploration of the real reader (exhaustive small partitions, random large ones) as stand-in; "
             "contract-based deductive verification of _skip_len"),
     "C01": ("exploration",
-            "Bounded stand-in, labelled bounded and not counted as proved: 4000 (thorough 100000) generated well-formed "
+            "Bounded stand-in, labelled bounded and not counted as proved: 4000 (thorough 1200000) generated well-formed "
             "messages through the real encode -> decode (all message types and custom ones, random body tags, values with "
             "'=', '10=', '9=', '8=FIX.', latin-1 letters, the message-level groups of the FIX 4.4 table with optional "
             "members and nesting, allocate / PossDup / SequenceReset / raw sequence-number modes): same type, body fields "
@@ -185,7 +188,7 @@ CLAIMED = {
             "query(), __str__ and pickle are covered only by the bounded reference-model part (labelled bounded).",
             "DESIGN.md 4/C18 and 9",
             "bounded, not proved: equality / query / pickle / rendering (reference-model walk: all op sequences of length "
-            "2 over a reduced alphabet + 3000 seeded random sequences of length 12, thorough 3 / 20000 x 16); assumed: "
+            "2 over a reduced alphabet + 3000 seeded random sequences of length 12, thorough 3 / 250000 x 20); assumed: "
             "A-IND (induction over the operation sequence not mechanised), A-HEAP (dict / list semantics of the heap "
             "model), A-CANON / A-FLOATSTR (int() / str() facts, uninterpreted otherwise), unspecified corners left open "
             "(out-of-range insertion index, negative lookup index, del of a missing tag); refutations are replayed by "
@@ -207,7 +210,7 @@ CLAIMED = {
             "as proved.",
             "DESIGN.md 4/C17 and 9",
             "bounded, not proved: convergence over interleavings (all interleavings up to 10 events + 300 seeded walks, "
-            "thorough 12 / 5000) against an exchange model written from the FIX 4.4 order state matrices; assumed: A-REPR "
+            "thorough 13 / 50000) against an exchange model written from the FIX 4.4 order state matrices; assumed: A-REPR "
             "(float(str(x)) == x, what carries price / quantity over the wire), A-ROOT "
             "(clord_root regular expression by contract), environment contracts on what an exchange reports (ExecType "
             "Replaced only for a pending replace, pending statuses only for outstanding requests, cancel rejects report a "
